@@ -740,6 +740,28 @@ pub mod verif_hooks {
 		let back = run(&mut in_peer, &mut out_peer);
 		[fwd, back]
 	}
+
+	/// A bare initiator: the noise state machine without a `PeerManager` around it, so that a test can send a peer
+	/// whatever it likes after the handshake (e.g. something other than `Init` first).
+	pub struct RawInitiator(PeerChannelEncryptor);
+	impl RawInitiator {
+		/// Starts a handshake with `their_node_id`; returns act one.
+		pub fn new(their_node_id: bitcoin::secp256k1::PublicKey) -> (Self, [u8; 50]) {
+			let secp = Secp256k1::new();
+			let eph = SecretKey::from_slice(&[0x32; 32]).unwrap();
+			let mut enc = PeerChannelEncryptor::new_outbound(their_node_id, eph);
+			let act1 = enc.get_act_one(&secp);
+			(RawInitiator(enc), act1)
+		}
+		/// Processes the responder's act two; returns act three.
+		pub fn act_three(&mut self, act_two: &[u8], signer: &KeysManager) -> [u8; 66] {
+			self.0.process_act_two(act_two, &signer).unwrap().0
+		}
+		/// Encrypts an encoded message (type bytes + payload) for the wire.
+		pub fn encrypt(&mut self, encoded: &[u8]) -> Vec<u8> {
+			self.0.encrypt_buffer(MessageBuf::from_encoded(encoded).unwrap())
+		}
+	}
 }
 
 #[cfg(test)]
